@@ -186,6 +186,13 @@ func (s *Stream) SetReadDeadline(deadline time.Time) error {
 				default:
 				}
 				s.lock.Lock()
+				if s.readTimeoutCancel != readTimeoutCancel {
+					// Superseded while waiting for the lock: a later
+					// SetReadDeadline owns the deadline now.
+					s.lock.Unlock()
+
+					return
+				}
 				if s.readErr == nil {
 					s.readErr = ErrReadDeadlineExceeded
 				}
